@@ -196,7 +196,7 @@ def resolve(uri: Union[str, URI], delay_time: float = 0.0) -> URI:
     from . import nameserver   # doing it here to avoid circular import issues
     if uri.protocol == "PYRONAME":
         with locate_ns(uri.host, uri.port) as ns:
-            return nameserver.lookup(ns, uri.object, delay_time)
+            return nameserver.lookup(ns, uri.object, delay_time=delay_time)
     elif uri.protocol == "PYROMETA":
         with locate_ns(uri.host, uri.port) as ns:
             candidates = nameserver.yplookup(ns, uri.object, None, False, delay_time)
